@@ -140,6 +140,10 @@ type memObs struct {
 	MagicOK   bool  // bytes [58,60) of that header are "`\n"
 	Delivered int64 // bytes obtained by reading Data from the start to the end
 	Note      string
+	// direct use of the member as a tar (tarprobe.go)
+	IsTar  bool   // what IsTarfile() says
+	TarOut string // what Tarfile() did: "not called" | "error" | "no error" | "entries=N then eof|error|cut" | "panic: ..." | "hang"
+	Reread int64  // bytes delivered by the member's Data when rewound and re-read after Tarfile (-1: not done)
 }
 
 func observe(b []byte, e *deb.ArEntry, rewind bool) (m memObs) {
@@ -165,6 +169,7 @@ func observe(b []byte, e *deb.ArEntry, rewind bool) (m memObs) {
 	if err != io.EOF {
 		m.Note = fmt.Sprintf("read ends with %v after %d bytes", err, n)
 	}
+	tarProbe(b, e, &m)
 	return
 }
 
@@ -307,6 +312,7 @@ func memberFindings(b []byte, ms []memObs, add func(finding)) {
 			add(finding{"header-magic", "a member is returned only from a header whose bytes [58,60) are \"`\\n\"",
 				fmt.Sprintf("member #%d %q size=%d parsed from the header at offset %d whose magic bytes are %s", i, m.Name, m.Size, m.HdrOff, at)})
 		}
+		tarFindings(i, m, add)
 		if m.Size < 0 {
 			add(finding{"size-non-negative", "Size >= 0", fmt.Sprintf("member #%d %q (header at %d) has Size=%d", i, m.Name, m.HdrOff, m.Size)})
 			continue
